@@ -61,6 +61,8 @@ fn main() {
                 "C08" => props_c08::c08(tier, seed),
                 "C09" => props_f::c09(tier, seed),
                 "C10" => props_f::c10(tier, seed),
+                "C11" => props_g::c11(tier, seed),
+                "C12" => props_g::c12(tier, seed),
                 "C13" => props_f::c13(tier, seed),
                 "C14" => props_f::c14(tier, seed),
                 "C15" => props_a::c15(tier, seed),
